@@ -246,11 +246,12 @@ theorem intervalsGo_cons_cons (s : Int) (ss es : List Int) (e : Int) (et : List 
   · rename_i h'; rw [h] at h'; cases h'
   · rename_i e' et' h'; rw [h] at h'; cases h'; rfl
 
-theorem intervalsGo_nil_cons (e : Int) (es : List Int) :
-    intervalsGo [] (e :: es) = (dateStart, e) :: intervalsGo [] es := by
-  rw [intervalsGo]
+/-- once the starts are used up the stream ends (the ends that are left close nothing) -/
+theorem intervalsGo_nil (es : List Int) : intervalsGo [] es = [] := by rw [intervalsGo]
 
-theorem intervalsGo_nil_nil : intervalsGo [] [] = [] := by rw [intervalsGo]
+theorem intervalsGo_nil_cons (e : Int) (es : List Int) : intervalsGo [] (e :: es) = [] := intervalsGo_nil _
+
+theorem intervalsGo_nil_nil : intervalsGo [] [] = [] := intervalsGo_nil _
 
 /-! ### `add_days_saturating` is a clamp -/
 
